@@ -109,110 +109,116 @@ func c05Steps(r *vReport, idx *int64, maxSteps int) {
 			}
 			for _, p := range positions {
 				for _, tgt := range targets {
-					*idx++
-					if !r.Mine(*idx) {
-						continue
-					}
-					if *idx%4096 == 0 && r.Expired() {
-						return
-					}
-					expr := "${{ steps." + strings.ToUpper(tgt[:1]) + tgt[1:] + ".outputs.o }}"
-					var b strings.Builder
-					line := 1
-					w := func(s string) { b.WriteString(s + "\n"); line++ }
-					w("on: push")
-					w("jobs:")
-					refLine := 0
-					for j := range shape {
-						w(fmt.Sprintf("  j%d:", j))
-						w("    runs-on: ubuntu-latest")
-						if p.job == j && p.field == "outputs" {
-							w("    outputs:")
-							refLine = line
-							w("      o: " + expr)
+					for wrap := range c05Wraps {
+						*idx++
+						if !r.Mine(*idx) {
+							continue
 						}
-						if p.job == j && p.field == "environment-url" {
-							w("    environment:")
-							w("      name: prod")
-							refLine = line
-							w("      url: " + expr)
+						if *idx%4096 == 0 && r.Expired() {
+							return
 						}
-						w("    steps:")
-						for k := 0; k < shape[j]; k++ {
-							first := true
-							item := func(s string) {
-								if first {
-									w("      - " + s)
-									first = false
-								} else {
-									w("        " + s)
-								}
-							}
-							if id := idOf(j, k); id != "" {
-								item("id: " + id)
-							}
-							here := p.job == j && p.step == k
-							uses := here && p.field == "with"
-							if uses {
-								item("uses: actions/checkout@v4")
-								item("with:")
+						expr := "${{ " + fmt.Sprintf(c05Wraps[wrap], "steps."+strings.ToUpper(tgt[:1])+tgt[1:]+".outputs.o") + " }}"
+						var b strings.Builder
+						line := 1
+						w := func(s string) { b.WriteString(s + "\n"); line++ }
+						w("on: push")
+						w("jobs:")
+						refLine := 0
+						for j := range shape {
+							w(fmt.Sprintf("  j%d:", j))
+							w("    runs-on: ubuntu-latest")
+							if p.job == j && p.field == "outputs" {
+								w("    outputs:")
 								refLine = line
-								w("          ref: " + expr)
-							} else {
-								if here && p.field == "run" {
+								w("      o: " + expr)
+							}
+							if p.job == j && p.field == "environment-url" {
+								w("    environment:")
+								w("      name: prod")
+								refLine = line
+								w("      url: " + expr)
+							}
+							w("    steps:")
+							for k := 0; k < shape[j]; k++ {
+								first := true
+								item := func(s string) {
+									if first {
+										w("      - " + s)
+										first = false
+									} else {
+										w("        " + s)
+									}
+								}
+								if id := idOf(j, k); id != "" {
+									item("id: " + id)
+								}
+								here := p.job == j && p.step == k
+								uses := here && p.field == "with"
+								if uses {
+									item("uses: actions/checkout@v4")
+									item("with:")
 									refLine = line
-									item("run: echo " + expr)
+									w("          ref: " + expr)
 								} else {
-									item("run: echo")
+									if here && p.field == "run" {
+										refLine = line
+										item("run: echo " + expr)
+									} else {
+										item("run: echo")
+									}
+									if here && p.field == "working-directory" {
+										refLine = line
+										item("working-directory: " + expr)
+									}
 								}
-								if here && p.field == "working-directory" {
-									refLine = line
-									item("working-directory: " + expr)
-								}
-							}
-							if here {
-								switch p.field {
-								case "name":
-									refLine = line
-									item("name: " + expr)
-								case "if":
-									refLine = line
-									item("if: " + strings.Replace(expr, " }}", " == 'x' }}", 1))
-								case "env":
-									item("env:")
-									refLine = line
-									w("          V: " + expr)
-								case "timeout-minutes":
-									refLine = line
-									item("timeout-minutes: " + expr)
-								case "continue-on-error":
-									refLine = line
-									item("continue-on-error: " + strings.Replace(expr, " }}", " == 'x' }}", 1))
+								if here {
+									switch p.field {
+									case "name":
+										refLine = line
+										item("name: " + expr)
+									case "if":
+										refLine = line
+										item("if: " + strings.Replace(expr, " }}", " == 'x' }}", 1))
+									case "env":
+										item("env:")
+										refLine = line
+										w("          V: " + expr)
+									case "timeout-minutes":
+										refLine = line
+										item("timeout-minutes: " + expr)
+									case "continue-on-error":
+										refLine = line
+										item("continue-on-error: " + strings.Replace(expr, " }}", " == 'x' }}", 1))
+									}
 								}
 							}
 						}
-					}
-					// scope rule
-					defined := false
-					for k := 0; k < shape[p.job]; k++ {
-						if idOf(p.job, k) == tgt && (p.step == -1 || k < p.step) {
-							defined = true
+						// scope rule
+						defined := false
+						for k := 0; k < shape[p.job]; k++ {
+							if idOf(p.job, k) == tgt && (p.step == -1 || k < p.step) {
+								defined = true
+							}
 						}
-					}
-					what := "step-field:" + p.field
-					if p.step == -1 {
-						what = "job-" + p.field
-					}
-					desc := fmt.Sprintf("shape=%v ids=%b ref at job %d step %d field %s -> %s", shape, mask, p.job, p.step, p.field, tgt)
-					c05Judge(r, "steps", desc, b.String(), []c05Ref{{refLine, tgt, defined, what}}, nil)
-					if *idx%15013 == 0 {
-						r.Sample(map[string]any{"family": "steps", "case": desc, "in_scope": defined})
+						what := "step-field:" + p.field
+						if p.step == -1 {
+							what = "job-" + p.field
+						}
+						desc := fmt.Sprintf("shape=%v ids=%b ref at job %d step %d field %s wrap %d -> %s", shape, mask, p.job, p.step, p.field, wrap, tgt)
+						c05Judge(r, "steps", desc, b.String(), []c05Ref{{refLine, tgt, defined, what}}, nil)
+						if *idx%15013 == 0 {
+							r.Sample(map[string]any{"family": "steps", "case": desc, "in_scope": defined})
+						}
 					}
 				}
 			}
 		}
 	}
 }
+
+// c05Wraps are the expression shapes a reference is embedded in: plain, and as an operand whose
+// own type is narrowed away (it must still be resolved).
+var c05Wraps = []string{"%s", "%s && 'a' || 'b'", "(%s || 'a') && 'b'", "!(%s && true) && 'y'"}
 
 // ---------------------------------------------------------------------------------------------
 // (b) needs
@@ -585,7 +591,7 @@ func TestVerifC05(t *testing.T) {
 	r.Bounds["steps_per_job"] = maxSteps
 	r.Bounds["jobs_steps_family"] = 2
 	r.Bounds["jobs_needs_family"] = 3
-	r.Extra["rule"] = "steps: jobs<=2 x steps<=N x every subset of steps carrying an id x reference in 8 step fields of every step and in job outputs / environment.url x target (each id of either job | undefined); needs: 3 jobs x all 64 edge sets x all 6 file orders x needed job is a step job or a reusable-workflow call, reference to .result and to declared / undeclared outputs from every job; matrix: 10 definitions x {lower-case, mixed-case keys} (rows, include same/new/only, exclude, nested values, row / include / include element / whole matrix by expression) x 7 positions x defined/undefined keys; jobs with a matrix (literal / include-only / expression, step job or reusable-workflow call) next to jobs without that key in both file orders; inputs/secrets/jobs: call x dispatch x declared secrets. oracle = scope rule computed by the generator. class = (family, reference kind, in scope?); non-trivial = out of scope"
+	r.Extra["rule"] = "steps: jobs<=2 x steps<=N x every subset of steps carrying an id x reference in 8 step fields of every step and in job outputs / environment.url x 4 expression shapes (plain; condition of a && b || c; (x || a) && b; !(x && true) && y) x target (each id of either job | undefined); needs: 3 jobs x all 64 edge sets x all 6 file orders x needed job is a step job or a reusable-workflow call, reference to .result and to declared / undeclared outputs from every job; matrix: 10 definitions x {lower-case, mixed-case keys} (rows, include same/new/only, exclude, nested values, row / include / include element / whole matrix by expression) x 7 positions x defined/undefined keys; jobs with a matrix (literal / include-only / expression, step job or reusable-workflow call) next to jobs without that key in both file orders; inputs/secrets/jobs: call x dispatch x declared secrets. oracle = scope rule computed by the generator. class = (family, reference kind, in scope?); non-trivial = out of scope"
 	r.Extra["assumptions"] = []string{"step ids, job ids and keys are referenced in a different letter case than defined (case-insensitivity is part of resolution)", "for cyclic needs graphs only the needs.* verdicts are compared"}
 	if raw := vReplayInput(); raw != nil {
 		var rp struct {
